@@ -316,3 +316,128 @@ Proof.
   destruct (collapse_go l 0 0) as [p n]. cbn [fst snd add exactQ] in *.
   rewrite A, B. pose proof (maxpos_nonneg l). pose proof (minneg_nonpos l). qmm.
 Qed.
+
+(* ------------------------------------------------------------------ the cases of 10.3.3, stated on the model *)
+
+Definition ppb (u : ubox) : Q := upl u + upr u + ubl u + ubr u.
+
+Lemma blw_width_some ar u cbw w :
+  uw u = Some w -> uw (fst (block_level_width_ ar u cbw)) = Some w.
+Proof.
+  intros H. unfold block_level_width_. rewrite H.
+  repeat match goal with
+  | |- context [let '(_, _) := ?x in _] => destruct x
+  | |- context [match ?x with _ => _ end] => destruct x
+  end; reflexivity.
+Qed.
+
+Lemma blw_x ar u cbw : ux (fst (block_level_width_ ar u cbw)) = ux u.
+Proof.
+  destruct (blw_shape ar u cbw) as (a & b & c & o & E). rewrite E. reflexivity.
+Qed.
+
+(* width: auto -> auto margins become 0 and the width fills the containing block *)
+Lemma auto_width_fills u cbw :
+  uw u = None ->
+  let r := fst (block_level_width_ exactQ u cbw) in
+  V (uml r) == V (uml u) /\ V (umr r) == V (umr u) /\
+  V (uw r) == cbw - (ppb u + V (uml u) + V (umr u)) /\
+  V (uml r) + ubl u + upl u + V (uw r) + upr u + ubr u + V (umr r) == cbw.
+Proof.
+  intros H. unfold block_level_width_, ppb. rewrite H.
+  destruct (uml u) as [l|], (umr u) as [r|];
+    cbn [fst set_margins_w uml umr uw V add sub div exactQ];
+    repeat split; try reflexivity; ring.
+Qed.
+
+(* both margins auto: centred (equal margins) when the box fits, both 0 when it does not *)
+Lemma auto_margins_center u cbw wv :
+  uw u = Some wv -> uml u = None -> umr u = None ->
+  let r := fst (block_level_width_ exactQ u cbw) in
+  V (uw r) == wv /\
+  (ppb u + wv <= cbw ->
+     V (uml r) == V (umr r) /\ V (uml r) == (cbw - ppb u - wv) / 2 /\
+     V (uml r) + ubl u + upl u + wv + upr u + ubr u + V (umr r) == cbw) /\
+  (cbw < ppb u + wv -> V (uml r) == 0).
+Proof.
+  intros Hw Hl Hr. unfold block_level_width_, ppb. rewrite Hw, Hl, Hr.
+  cbn [add sub div exactQ V]. destruct (Qgtb _ cbw) eqn:E; qb;
+    cbn [fst set_margins_w uml umr uw V is_auto negb andb];
+    repeat split; try reflexivity; intros; try lra; try field.
+Qed.
+
+(* exactly one auto margin: it takes what is left *)
+Lemma one_auto_margin_left u cbw wv r :
+  uw u = Some wv -> uml u = None -> umr u = Some r -> ppb u + wv + r <= cbw ->
+  let b := fst (block_level_width_ exactQ u cbw) in
+  V (uw b) == wv /\ V (umr b) == r /\ V (uml b) == cbw - ppb u - wv - r.
+Proof.
+  intros Hw Hl Hr Hfit. unfold block_level_width_. fold (ppb u). rewrite Hw, Hl, Hr.
+  cbn [add sub div exactQ V]. unfold ppb in *. destruct (Qgtb _ cbw) eqn:E; qb; try lra.
+  cbn [fst set_margins_w uml umr uw V]. repeat split; try reflexivity; try ring.
+Qed.
+Lemma one_auto_margin_right u cbw wv l :
+  uw u = Some wv -> uml u = Some l -> umr u = None -> ppb u + wv + l <= cbw ->
+  let b := fst (block_level_width_ exactQ u cbw) in
+  V (uw b) == wv /\ V (uml b) == l /\ V (umr b) == cbw - ppb u - wv - l.
+Proof.
+  intros Hw Hl Hr Hfit. unfold block_level_width_. fold (ppb u). rewrite Hw, Hl, Hr.
+  cbn [add sub div exactQ V]. unfold ppb in *. destruct (Qgtb _ cbw) eqn:E; qb; try lra.
+  cbn [fst set_margins_w uml umr uw V]. repeat split; try reflexivity; try ring.
+Qed.
+
+(* over-constrained, ltr: position, left margin and width are the specified ones whatever
+   the right margin; the flag is raised *)
+Lemma overconstrained_ignores_mr u cbw wv l r :
+  uw u = Some wv -> uml u = Some l -> umr u = Some r ->
+  let res := block_level_width_ exactQ u cbw in
+  snd res = true /\ ux (fst res) = ux u /\ uml (fst res) = Some l /\ uw (fst res) = Some wv.
+Proof.
+  intros Hw Hl Hr. unfold block_level_width_. rewrite Hw, Hl, Hr.
+  cbn [add exactQ]. destruct (Qgtb _ cbw); cbn; repeat split; reflexivity.
+Qed.
+
+(* 10.4 on the model: the used width is the tentative one, capped by max-width, then
+   raised to min-width *)
+Lemma hmm_width u cbw :
+  V (uw (fst (handle_min_max_width exactQ u cbw))) =
+  let w1 := V (uw (fst (block_level_width_ exactQ u cbw))) in
+  let w2 := if gt_ext w1 (umaxw u) then match umaxw u with Fin m => m | PInf => w1 end else w1 in
+  if Qltb w2 (uminw u) then uminw u else w2.
+Proof.
+  unfold handle_min_max_width.
+  destruct (blw_shape exactQ u cbw) as (a1 & b1 & c1 & o1 & E1). rewrite E1.
+  cbn [fst umaxw uw set_margins_w V]. cbv zeta.
+  destruct (gt_ext (V c1) (umaxw u)) eqn:G.
+  - destruct (umaxw u) as [m|] eqn:EM; [|discriminate G].
+    match goal with |- context [block_level_width_ exactQ ?v cbw] => set (v2 := v) end.
+    pose proof (blw_width_some exactQ v2 cbw m eq_refl) as W.
+    destruct (blw_shape exactQ v2 cbw) as (a & b & c & o & E2). rewrite E2 in *.
+    cbn [fst uw set_margins_w uminw] in *. subst c. cbn [V]. subst v2. cbn [uminw set_margins_w].
+    destruct (Qltb m (uminw u)); [|reflexivity].
+    rewrite (blw_width_some exactQ _ cbw (uminw u)) by reflexivity. reflexivity.
+  - cbn [uw set_margins_w uminw V].
+    destruct (Qltb (V c1) (uminw u)); [|reflexivity].
+    rewrite (blw_width_some exactQ _ cbw (uminw u)) by reflexivity. reflexivity.
+Qed.
+
+Lemma width_ge_min u cbw :
+  uminw u <= V (uw (fst (handle_min_max_width exactQ u cbw))).
+Proof.
+  rewrite hmm_width. cbv zeta.
+  match goal with |- context [Qltb ?a ?b] => destruct (Qltb a b) eqn:E end; qb; lra.
+Qed.
+
+Lemma negative_width_clamped u cbw :
+  0 <= uminw u -> 0 <= V (uw (fst (handle_min_max_width exactQ u cbw))).
+Proof. intros H. pose proof (width_ge_min u cbw). lra. Qed.
+
+(* ... and never above max-width unless min-width says otherwise *)
+Lemma width_le_max u cbw m :
+  umaxw u = Fin m -> uminw u <= m ->
+  V (uw (fst (handle_min_max_width exactQ u cbw))) <= m.
+Proof.
+  intros Hm Hle. rewrite hmm_width, Hm. cbv zeta. cbn [gt_ext].
+  destruct (Qgtb _ m) eqn:E1;
+  match goal with |- context [Qltb ?a ?b] => destruct (Qltb a b) eqn:E end; qb; lra.
+Qed.
